@@ -46,7 +46,32 @@ var (
 	accesses []access
 	sends    []chanSend
 	edges    = map[edge]bool{}
+	// whole-function locks: fn acquires mu at the top level of its body and releases it by defer
+	fnLocks []string
 )
+
+// topLevelLocks records the mutexes a function holds from a top-level Lock()/RLock() statement
+// until it returns (released by a deferred Unlock()/RUnlock() at the top level).
+func topLevelLocks(fn string, body *ast.BlockStmt) {
+	w := &walker{}
+	locked := map[string]bool{}
+	excl := map[string]bool{}
+	for _, st := range body.List {
+		switch v := st.(type) {
+		case *ast.ExprStmt:
+			if c, ok := v.X.(*ast.CallExpr); ok {
+				if mu, kind, ok := w.lockCall(c); ok && (kind == "Lock" || kind == "RLock") {
+					locked[mu] = true
+					excl[mu] = kind == "Lock"
+				}
+			}
+		case *ast.DeferStmt:
+			if mu, kind, ok := w.lockCall(v.Call); ok && (kind == "Unlock" || kind == "RUnlock") && locked[mu] {
+				fnLocks = append(fnLocks, fmt.Sprintf("(%s, %s, %v)", leanStr(fn), leanStr(mu), excl[mu]))
+			}
+		}
+	}
+}
 
 // sharedFields maps the selector suffix that identifies a shared field to its name in the facts.
 // The key is matched against the rendered selector expression (receiver.field[.field]).
@@ -160,7 +185,10 @@ func (w *walker) expr(e ast.Expr) {
 	ast.Inspect(e, func(n ast.Node) bool {
 		switch v := n.(type) {
 		case *ast.FuncLit:
-			sub := &walker{fset: w.fset, file: w.file, fn: w.fn + ".func", held: nil}
+			// a literal that is not started as a goroutine runs in the enclosing function
+			// (called directly, deferred or handed to a callee): it inherits the locks held where it
+			// is written; its own acquisitions end with it
+			sub := &walker{fset: w.fset, file: w.file, fn: w.fn + ".func", held: w.copyHeld()}
 			sub.block(v.Body)
 			return false
 		case *ast.SelectorExpr:
@@ -385,6 +413,7 @@ func main() {
 			}
 			w := &walker{fset: fset, file: rel, fn: name}
 			w.block(fd.Body)
+			topLevelLocks(name, fd.Body)
 		}
 	}
 	sort.SliceStable(accesses, func(i, j int) bool {
@@ -419,7 +448,7 @@ func main() {
 		es = append(es, fmt.Sprintf("(%s, %s)", leanStr(e.from), leanStr(e.to)))
 	}
 	sort.Strings(es)
-	b.WriteString("]\n\n/-- (held, then acquired) -/\ndef lockEdges : List (String × String) := [" + strings.Join(es, ", ") + "]\n\nend Gribi.Facts\n")
+	b.WriteString("]\n\n/-- (held, then acquired) -/\ndef lockEdges : List (String × String) := [" + strings.Join(es, ", ") + "]\n\n/-- (function, mutex, exclusive): held from a top-level Lock until return (deferred Unlock) -/\ndef fnLocks : List (String × String × Bool) := [\n  " + strings.Join(fnLocks, ",\n  ") + "\n]\n\nend Gribi.Facts\n")
 	if *out == "" {
 		fmt.Print(b.String())
 		return
@@ -428,4 +457,5 @@ func main() {
 		fmt.Fprintln(os.Stderr, err)
 		os.Exit(1)
 	}
+	fmt.Printf("facts: %d shared-field accesses, %d channel sends under a lock, %d lock-nesting edges\n", len(accesses), len(sends), len(edges))
 }
